@@ -100,8 +100,79 @@ func Load(repo string, overlay map[string][]byte, goos, goarch string) (*Prog, e
 	}
 	prog, _ := ssautil.AllPackages(pkgs, ssa.InstantiateGenerics)
 	prog.Build()
+	normalizeDeferSpills(prog)
 	p.SSA = prog
 	return p, nil
+}
+
+// normalizeDeferSpills undoes one artefact of go/ssa: in a function that defers anything, results are not returned
+// directly but stored into a synthetic local, `rundefers` runs, and the local is loaded again for the return (the
+// recover block needs the local). The rules reason about what a return hands out, and adding a `defer` to a function
+// must not change any verdict. Where the local is touched by nothing but its own stores and loads (no closure captures
+// it: that is the case of named results written by a recover handler, which the barrier rules treat on their own),
+// the result of the return is replaced by the value stored into the local last in the same block.
+func normalizeDeferSpills(prog *ssa.Program) {
+	for fn := range ssautil.AllFunctions(prog) {
+		if fn.Recover == nil || fn.Blocks == nil {
+			continue
+		}
+		private := func(a *ssa.Alloc) bool {
+			if a.Heap || a.Referrers() == nil {
+				return false
+			}
+			for _, r := range *a.Referrers() {
+				switch x := r.(type) {
+				case *ssa.Store:
+					if x.Addr != ssa.Value(a) {
+						return false
+					}
+				case *ssa.UnOp:
+					if x.Op != token.MUL {
+						return false
+					}
+				case *ssa.DebugRef:
+				default:
+					return false
+				}
+			}
+			return true
+		}
+		for _, b := range fn.Blocks {
+			if b == fn.Recover || len(b.Instrs) == 0 {
+				continue
+			}
+			ret, ok := b.Instrs[len(b.Instrs)-1].(*ssa.Return)
+			if !ok {
+				continue
+			}
+			for i, res := range ret.Results {
+				ld, ok := res.(*ssa.UnOp)
+				if !ok || ld.Op != token.MUL || ld.Block() != b {
+					continue
+				}
+				a, ok := ld.X.(*ssa.Alloc)
+				if !ok || !private(a) {
+					continue
+				}
+				var last *ssa.Store
+				for _, in := range b.Instrs {
+					if in == ssa.Instruction(ld) {
+						break
+					}
+					if st, ok := in.(*ssa.Store); ok && st.Addr == ssa.Value(a) {
+						last = st
+					}
+				}
+				if last == nil {
+					continue
+				}
+				ret.Results[i] = last.Val
+				if refs := last.Val.Referrers(); refs != nil {
+					*refs = append(*refs, ret)
+				}
+			}
+		}
+	}
 }
 
 // CallGraph builds (once) the VTA call graph over CHA for the whole program.
